@@ -285,6 +285,39 @@ def unreachable_pythia_stage(c):
     status = results[w][0]
     if status in ('done', 'PENDING'):
       c.prop_fail('suggest-failure-not-reported', 'Pythia unreachable, but SuggestTrials answered %s' % status, case)
+  # the same at early-stopping time: a trial handed out from the REQUESTED pool (no Pythia needed), then a check while
+  # the study's Pythia server is unreachable: the failure is reported and the trial's record is not left ACTIVE
+  from vizier._src.service import vizier_oss_pb2
+  t = sv.CreateTrial(vsp.CreateTrialRequest(parent=study.name, trial=study_pb2.Trial()))
+  sv.SuggestTrials(vsp.SuggestTrialsRequest(parent=study.name, suggestion_count=1, client_id='wes'))
+  es_result = {}
+
+  def es_call():
+    try:
+      sv.CheckTrialEarlyStoppingState(vsp.CheckTrialEarlyStoppingStateRequest(trial_name=t.name))
+      es_result['r'] = 'answered'
+    except Exception as e:  # pylint: disable=broad-except
+      es_result['r'] = 'EXC:' + type(e).__name__
+  th = threading.Thread(target=es_call, daemon=True)
+  th.start()
+  th.join(limit)
+  c.traces += 1
+  c.count(1, ('unreachable', 'earlystop'), kind='fault:unreachable-pythia:earlystop')
+  es_case = {'pythia_endpoint': sc.pythia_endpoint, 'trial': t.name, 'result': es_result.get('r')}
+  if th.is_alive():
+    c.prop_fail('earlystop-hangs-on-unreachable-pythia', 'CheckTrialEarlyStoppingState of a study whose Pythia server is unreachable did not return within %.0f s' % limit, es_case)
+    return
+  if es_result.get('r') == 'answered':
+    c.prop_fail('earlystop-failure-not-reported', 'Pythia unreachable, but CheckTrialEarlyStoppingState answered normally', es_case)
+  try:
+    from vizier._src.service import resources
+    tr = resources.TrialResource.from_name(t.name)
+    esop = sv.datastore.get_early_stopping_operation(tr.early_stopping_operation_resource.name)
+    if esop.status == vizier_oss_pb2.EarlyStoppingOperation.Status.ACTIVE:
+      c.prop_fail('earlystop-record-left-active:unreachable-pythia',
+                  'after the unreachable-Pythia failure the trial\'s early-stopping record is still ACTIVE: every later check of the trial is answered from it without reaching the algorithm', es_case)
+  except KeyError:
+    pass
   pending = []
   for w in workers:
     try:
